@@ -626,12 +626,8 @@ fn gen_element(rng: &mut Rng, kind: &str, name: &str, ctx: &mut Ctx) -> String {
         _ => unreachable!("kind {kind}"),
     };
     rng.shuffle(&mut opt);
-    // No `//` comments inside RECORD_LAYOUT: its children are position restricted, the writer reorders them by
-    // position, and a line comment that is then followed by a child read from the same line swallows that child
-    // (observed: "/begin RECORD_LAYOUT r AXIS_PTS_X 2 SWORD INDEX_INCR DIRECT\n // c\n FNC_VALUES 1 UBYTE ROW_DIR
-    // DIRECT /end RECORD_LAYOUT" is written as "... FNC_VALUES ...\n // c AXIS_PTS_X ..." and loads without
-    // AXIS_PTS_X). That is a defect of write_to_string alone (round trip, not C14), so it is kept out of here.
-    let line_ok = kind != "RECORD_LAYOUT";
+    // `//` comments inside RECORD_LAYOUT (reordered child written behind the line comment, C01-4): repaired in /repo 6bcb276: generated and checked again
+    let line_ok = true;
     let mut s = format!("/begin {kind} {head}");
     for o in opt {
         if ctx.inner_comments && rng.chance(1, 6) {
@@ -745,14 +741,13 @@ fn gen_module_chunks(rng: &mut Rng, p: &GenParams, ctx: &mut Ctx) -> Vec<String>
 }
 
 fn sep(rng: &mut Rng) -> &'static str {
-    // Every child of a MODULE starts on a new line. A child that was read from the same line as its predecessor
-    // keeps "0 line breaks" as its layout; when it is merged / pushed into a module whose last written item is a
-    // `// line comment`, write_to_string() appends it to the comment line and the element is commented out
-    // (observed; a defect of the writer alone, independent of sort_new_items, so it is kept out of this driver).
+    // a child read from the same line as its predecessor ("0 line breaks") that is merged / pushed behind a `// line comment`
+    // (it was appended to the comment line, C01-4): repaired in /repo 6bcb276: generated and checked again
     match rng.below(6) {
         0 => "\n\n    ",
         1 => "\n",
         2 => "\n\t",
+        3 => " ",
         _ => "\n    ",
     }
 }
@@ -1572,10 +1567,12 @@ fn random_history(case_seed: u64, max_ops: usize) -> Result<u64, (Failure, Strin
                     ctx.inner_comments = false; // a line comment at the end of a fragment would swallow "/end MODULE"
                     parts.push(gen_element(&mut rng, kind, &name, &mut ctx));
                 }
-                // the fragment starts with a line break (see sep())
+                // a fragment whose first element has "0 line breaks" (see sep()): repaired in /repo 6bcb276: generated and checked again
+                let lead = if rng.chance(1, 2) { "\n" } else { "" };
+                let glue = if rng.chance(1, 3) { " " } else { "\n" };
                 Op::PushFragment {
                     module,
-                    text: format!("\n{}", parts.join("\n")),
+                    text: format!("{lead}{}", parts.join(glue)),
                 }
             }
             50..=55 => {
